@@ -124,6 +124,11 @@ def rule_u1(F, bodies=None, scope_note=None):
                         continue
                     key = "%s const %d" % (b.path, v)
                     ok = [k for k in CONST_OK if b.path.endswith(k[0]) and k[1] == v]
+                    if not ok:
+                        # a private helper that is only ever called from a reviewed site with the same constant (the token text is handed over)
+                        cs = {c for c in mir._callers_of(F, b.path) if c != b.path}
+                        if cs and all(any(c.endswith(k[0]) and k[1] == v for k in CONST_OK) for c in cs):
+                            ok = [k for k in CONST_OK if any(c.endswith(k[0]) for c in cs) and k[1] == v]
                     r.inst(key, {"fn": b.path, "line": t["line"], "constant_byte_offset": v, "reviewed": CONST_OK[ok[0]] if ok else None})
                     if not ok:
                         r.bad(b.path, "const offset %d into str" % v, relfile(b.file), t["line"],
@@ -442,6 +447,9 @@ def rule_u6(F):
             for which, cst in found:
                 if (fn, which, cst) in SPAN_REVIEWED:
                     continue
+                cs = {c for c in mir._callers_of(F, b.path) if c != b.path}
+                if cs and all((hir.last(c), which, cst) in SPAN_REVIEWED for c in cs):
+                    continue     # a helper only called from a reviewed site of the same constant
                 r.bad(b.path, "Span %s %s" % (which, cst), relfile(b.file), line,
                       "a span bound is built with the constant %s (%s): unless the bytes it stands for are known to be exactly that long (a reviewed ASCII delimiter) the span can end inside a multi-byte character - or beyond an empty file - "
                       "and rendering the report panics" % (cst, which))
